@@ -121,4 +121,4 @@ def parse_obl_line(line):
 
 
 def tier_rank(t):
-    return {"quick": 0, "thorough": 1}[t]
+    return {"quick": 0, "thorough": 1, "off": 99}[t]
